@@ -162,6 +162,9 @@ def check_model_pair(mp: onnx.ModelProto, spec, tname, tf, stats, loop_bound=3, 
             else:
                 feeds = {n: np.zeros(sh, dtype=DT(dt).numpy()) for n, dt, sh in spec}
             rep = R.replay_pair(orig_bytes, new_bytes, feeds)
+            if not rep["reproduced"] and rec.get("uf"):
+                rep, feeds = R.replay_pair_random(orig_bytes, new_bytes, spec)
+                rec["replay_inputs_sampled"] = True
             rec["replay"] = {k: rep.get(k) for k in ("reproduced", "difference", "ort_err_a", "ort_err_b", "reference_agrees")}
             rec["orig_fails_only"] = bool(rep.get("ort_err_a")) and not rep.get("ort_err_b")
             rec["new_fails_only"] = bool(rep.get("ort_err_b")) and not rep.get("ort_err_a")
@@ -293,7 +296,8 @@ def diagnose(name, rec) -> bool:
     if "model_a_b64" not in rb or name not in DIAG:
         return False
     if name == "widens_accepted_inputs":
-        return bool(rec.get("orig_fails_only"))
+        # both the symbolic semantics and onnxruntime must say: the ORIGINAL fails on this input, the result returns
+        return bool(rec.get("orig_fails_only")) and rec.get("kind") == "error-behaviour"
     if name == "flatten_reshape_zero_dim" and not (rec.get("new_fails_only") and rec.get("zero_dim_input")):
         return False
     try:
